@@ -27,6 +27,14 @@ def evaluate(kp, g, doc, bad, text, o, label, clause='export'):
             msg, feats = c
             viol.append((clause, (','.join(sorted(feats)) + ': ' if feats else '') + f'options {fmt(o)}: ' + msg,
                          {'text': text, 'options': o}))
+        else:
+            # also on the lines the oracle does not pin down: a token that exports to nothing is replaced by the null
+            # placeholder, so no exported cell is the empty string (a line would lose a column for every reader)
+            for k, line in enumerate(out[3:].split('\n')):
+                if line != '' and '' in line.split('\t'):
+                    viol.append((clause, f'options {fmt(o)}: exported line {k + 1} {line.split(chr(9))} holds an empty cell instead of a placeholder',
+                                 {'text': text, 'options': o}))
+                    break
     return engine.rec(label, impl=out, req=docs.model_dumps_req(bad, text, **o), viol=viol, kind=label,
                       key=(text, fmt(o)))
 
